@@ -288,6 +288,14 @@ fn run_op(live: &mut Live, op: &Op) -> Obs {
                 Err(o) => o,
             }
         }
+        Op::MakeRefClone(k) => {
+            let Some(u) = live.get(*k) else {
+                return Obs::NotApplicable;
+            };
+            let c = u.clone();
+            let _lent: &Unimock = u.make_ref(c);
+            Obs::Silent
+        }
         Op::MakeRef(k) => {
             let Some(u) = live.get(*k) else {
                 return Obs::NotApplicable;
